@@ -12,7 +12,8 @@ from props import c11 as C11
 
 ASSUMPTIONS = ["'accepts' = the individual real decoder returns a dictionary without raising",
                "own-decoder theorems cover frames of the three meters and P1 blocks on a fresh AutoDecoder and every message under a "
-               "same-decoder history; bare notification bodies on a FRESH AutoDecoder are covered by this correspondence only"]
+               "same-decoder history; bare notification bodies on a fresh AutoDecoder under the explicit octet-level hypothesis noApduStart "
+               "(octets 9.. do not read as an APDU date-time followed by a list; Props/C12OwnBody.lean, with checked witnesses that it is needed)"]
 
 
 def build_pool(rng, n_each=1):
@@ -117,8 +118,10 @@ def run(res, tier, seed, widen=1):
         check_history(res, prev, ps, impl, "history", case)
         res.nontriv((prev, tuple(ps)))
     res.count("histories", len(hist))
-    # own decoder: fresh and same-meter same-form history
-    for payload, own in big:
+    # own decoder: fresh and same-meter same-form history; first the witnesses of defect D14 (7-bit bodies with parentheses)
+    witnesses = [(bytes.fromhex("02010628292829"), "Kaifa_notification_body"),
+                 (bytes.fromhex("0201060000050a"), "Kaifa_notification_body")]
+    for payload, own in witnesses + big:
         if own is None:
             continue
         res.evaluations += 1
